@@ -211,6 +211,36 @@ def convert(src, filename="<pyx>"):
             cur_indent = ind
             i = j
             continue
+        # ---- cdef: block of local declarations (one `TYPE names [= init]` per indented line)
+        if stripped == "cdef:":
+            if cur_func is None:
+                raise PyxFrontError("%s:%d: module-level cdef block not supported" % (filename, i + 1))
+            out.append(" " * ind + "pass")
+            i += 1
+            while i < n:
+                l2 = lines[i]
+                c2 = _strip_comment(l2)
+                if not c2.strip():
+                    out.append("")
+                    i += 1
+                    continue
+                ind2 = len(l2) - len(l2.lstrip())
+                if ind2 <= ind:
+                    break
+                mm = DECL_RE.match(" " * ind + "cdef " + c2.strip())
+                if not mm:
+                    raise PyxFrontError("%s:%d: unparsable declaration in cdef block %r" % (filename, i + 1, c2.strip()))
+                names = [x.strip() for x in mm.group("names").split(",")]
+                for nm in names:
+                    info.functions[cur_func]["locals"][nm] = mm.group("type")
+                if mm.group("init"):
+                    if len(names) != 1:
+                        raise PyxFrontError("%s:%d: multi-name cdef with initialiser" % (filename, i + 1))
+                    out.append(" " * ind + names[0] + " " + mm.group("init"))
+                else:
+                    out.append(" " * ind + "pass")
+                i += 1
+            continue
         # ---- cdef local declarations
         if stripped.startswith("cdef "):
             mm = DECL_RE.match(code)
